@@ -1,6 +1,6 @@
 // InnerProductArgPC::shift_polynomial (ipa_pc/mod.rs): the prover-side degree-bound shift  (C04, C01)
 //@use core ops_gen poly labeled labeled_comm sponge std ser
-//@spec ring
+//@spec ring pcf_spec
 //@typemap /<G>/ => 
 //@typemap /G::Group::/ => G1::
 //@typemap /Option<G>/ => Option<G1Affine>
@@ -33,12 +33,16 @@ impl InnerProductArgPC {
     ensures
         // X^(supported_degree - d) * p(X): a polynomial of degree <= d is moved to the top of the key
         forall|x: FS| #[trigger] r.ev(x) == (if p.is_zero_spec() { f_zero() } else { f_mul(f_pow(x, (ck.comm_key@.len() - 1 - degree_bound) as nat), p.ev(x)) }),   // name=ipa.shift_polynomial.multiplies_by_x_to_the_shift props=C04,C01
+        // coefficient-wise: the coefficients of p moved up by D - d, zeros below
+        forall|t: int| #[trigger] pcf(&r, t) == (if t >= ck.comm_key@.len() - 1 - degree_bound { pcf(p, t - (ck.comm_key@.len() - 1 - degree_bound)) } else { f_zero() }),   // name=ipa.shift_polynomial.coefficients_moved_up_by_the_shift props=C04,C08
         r.wf(), p.is_zero_spec() ==> r.coeffs@.len() == 0, !p.is_zero_spec() ==> r.coeffs@.len() <= ck.comm_key@.len() - 1 - degree_bound + p.coeffs@.len(),
 //@body
 //@rw 1 /vec!\[G::ScalarField::zero\(\); ck\.supported_degree\(\) - degree_bound\]/ => vec_zero_fr(ck.supported_degree() - degree_bound)
 //@rw 1 /P::zero\(\)/ => Poly::zero()
 //@rw 1 /P::from_coefficients_vec/ => Poly::from_coefficients_vec
 //@rw 1 /extend_from_slice\(&p\.coeffs\(\)\)/ => extend_from_slice(p.coeffs())
+//@before /P::zero\(\)/
+            proof { assert forall|t: int| #[trigger] pcf(p, t) == f_zero() by { if 0 <= t < p.coeffs@.len() { assert(p.coeffs@[t]@ == f_zero()); } } }
 //@before /shifted_polynomial_coeffs\.extend_from_slice/
             let ghost z0 = shifted_polynomial_coeffs@;
 //@before /P::from_coefficients_vec\(shifted_polynomial_coeffs\)/
@@ -48,6 +52,13 @@ impl InnerProductArgPC {
                 assert forall|x: FS| peval(fviews(v0), x, v0.len()) == f_mul(f_pow(x, z0.len()), p.ev(x)) by { lemma_peval_shift(fviews(z0), p.cv(), x, p.len()); }
                 assert forall|rr: Poly, x: FS| (rr.coeffs@.len() <= v0.len() && rr.coeffs@ == v0.subrange(0, rr.coeffs@.len() as int) && (forall|i: int| rr.coeffs@.len() <= i < v0.len() ==> (#[trigger] v0[i])@ == f_zero()))
                     implies #[trigger] rr.ev(x) == peval(fviews(v0), x, v0.len()) by { lemma_peval_trailing_zeros(fviews(v0), x, rr.len(), v0.len()); lemma_peval_ext(fviews(v0), rr.cv(), x, rr.len()); }
+                assert forall|rr: Poly, t: int| (rr.coeffs@.len() <= v0.len() && rr.coeffs@ == v0.subrange(0, rr.coeffs@.len() as int) && (forall|i: int| rr.coeffs@.len() <= i < v0.len() ==> (#[trigger] v0[i])@ == f_zero()))
+                    implies #[trigger] pcf(&rr, t) == (if t >= z0.len() { pcf(p, t - z0.len()) } else { f_zero() }) by {
+                    if 0 <= t < v0.len() {
+                        if t < z0.len() { assert(v0[t] == z0[t]); } else { assert(v0[t] == p.coeffs@[t - z0.len()]); }
+                        if t < rr.coeffs@.len() { assert(rr.coeffs@[t] == v0[t]); }
+                    }
+                }
             }
 //@end
 }
